@@ -20,10 +20,15 @@ FORMS = ["int", "float", "complex", "str", "bytes", "bool", "None", "object", "A
          "dict[str, int]", "dict[str, str]", "type[A]", "type[B]",
          "tuple[()]", "tuple[int]", "tuple[int, str]", "tuple[str, int]", "tuple[int, ...]", "tuple[str, ...]",
          "Callable[[], int]", "Callable[[int], str]", "Callable[..., Any]"]
+# user generics: Sub passes its parameter through, Tagged and Pair re-map their base's parameter
+GENERIC_FORMS = ["Box[int]", "Box[str]", "Sub[int]", "Sub[str]", "Tagged[int]", "Tagged[str]", "Pair[int]", "Box[tuple[int, int]]"]
 CORE = ["int", "str", "None", "A", "B", "list[int]", "list[str]", "object"]
 
-HEADER = ("from typing import Any, Callable, Union, overload\n\n"
-          "class A: ...\nclass B(A): ...\nclass C: ...\nclass D(B): ...\n\n")
+HEADER = ("from typing import Any, Callable, Generic, TypeVar, Union, overload\n\n"
+          "T = TypeVar('T')\n"
+          "class A: ...\nclass B(A): ...\nclass C: ...\nclass D(B): ...\n"
+          "class Box(Generic[T]): ...\nclass Sub(Box[T]): ...\nclass Tagged(Box[int], Generic[T]): ...\n"
+          "class Pair(Box[tuple[T, T]]): ...\n\n")
 
 OPTIONS = [
     ("lossless", dict(lossy=False, use_abcs=False, max_union=7, remove_mutable=False), True),
@@ -50,6 +55,14 @@ def modules(tier):
     decls.append("x: %s" % a)
   for a, b in itertools.permutations(forms, 2):
     decls.append("x: Union[%s, %s]" % (a, b))
+  for a, b in itertools.permutations(GENERIC_FORMS + ["int", "A"], 2):
+    if a in GENERIC_FORMS or b in GENERIC_FORMS:
+      decls.append("x: Union[%s, %s]" % (a, b))
+  if tier != "quick":
+    for a in GENERIC_FORMS:
+      for b, c in itertools.combinations(GENERIC_FORMS + ["None", "list[int]"], 2):
+        if a not in (b, c):
+          decls.append("x: Union[%s, %s, %s]" % (a, b, c))
   tri = forms if tier != "quick" else forms[:13] + ["list[int]", "list[str]", "tuple[int, str]", "tuple[int, ...]", "Callable[[], int]"]
   for c in itertools.combinations(tri, 3):
     decls.append("x: Union[%s]" % ", ".join(c))
@@ -84,6 +97,15 @@ def modules(tier):
         fdecl.append("@overload\ndef f(a: Union[%s, %s]) -> %s: ...\n@overload\ndef f(a: %s) -> %s: ..." % (u[0], u[1], r1, q, r2))
         if tier != "quick" or u[0] < u[1]:
           fdecl.append("@overload\ndef f(a: %s) -> %s: ...\n@overload\ndef f(a: Union[%s, %s]) -> %s: ..." % (q, r2, u[0], u[1], r1))
+  # overloads that share their named parameters but differ in *args / **kwargs / an optional or
+  # keyword-only parameter (grouping signatures must not drop the extra call shapes)
+  tails = ["", ", *args: int", ", **kwargs: str", ", *args: int, **kwargs: str", ", c: int = ...", ", *, k: int", ", *, k: int = ..."]
+  for head in ("a: int", "a: int, b: str"):
+    for t1, t2 in itertools.permutations(tails, 2):
+      for r1, r2 in (("int", "int"), ("int", "str")):
+        fdecl.append("@overload\ndef f(%s%s) -> %s: ...\n@overload\ndef f(%s%s) -> %s: ..." % (head, t1, r1, head, t2, r2))
+  for a, b in itertools.permutations(GENERIC_FORMS[:6], 2):
+    fdecl.append("def f(a: Union[%s, %s]) -> Union[%s, %s]: ..." % (a, b, b, a))
   # methods / class constants
   cdecl = []
   for a, b in itertools.permutations(CORE, 2):
@@ -109,14 +131,33 @@ def universe():
   class B(A): pass
   class C: pass
   class D(B): pass
-  ns = {"A": A, "B": B, "C": C, "D": D}
+  class Box:
+    def __init__(self, v):
+      self.v = v
+    def __vk_view__(self, base):
+      return {"Box": [[self.v]]}.get(base)
+  class Sub(Box):
+    def __vk_view__(self, base):
+      return {"Box": [[self.v]], "Sub": [[self.v]]}.get(base)
+  class Tagged(Box):   # Tagged(Box[int], Generic[T]): payload is an int, T is the tag
+    def __init__(self, v, tag):
+      Box.__init__(self, v)
+      self.tag = tag
+    def __vk_view__(self, base):
+      return {"Box": [[self.v]], "Tagged": [[self.tag]]}.get(base)
+  class Pair(Box):     # Pair(Box[tuple[T, T]])
+    def __vk_view__(self, base):
+      return {"Box": [[self.v]], "Pair": [list(self.v)]}.get(base)
+  ns = {"A": A, "B": B, "C": C, "D": D, "Box": Box, "Sub": Sub, "Tagged": Tagged, "Pair": Pair}
   vals = [0, 1, True, False, 1.5, 1j, "a", "", b"b", None, object(),
           A(), B(), C(), D(), A, B, C, D, int, str, type,
           [], [1], ["a"], [1, "a"], [None], [1.5], [A()], [B()], [C()], [[1]], [["a"]], [[]], [(1, "a")], [True],
           {}, {"k": 1}, {"k": "a"}, {"k": None}, {1: 1}, {"k": [1]},
           (), (1,), ("a",), (1, "a"), ("a", 1), (1, 2), ("a", "b"), (1, 2, 3), (1, "a", 1), (None,), (A(),),
           set(), {1}, {"a"}, {1, "a"}, frozenset([1]),
-          (lambda: 0), (lambda a: a), (lambda a, b: a), len]
+          (lambda: 0), (lambda a: a), (lambda a, b: a), len,
+          Box(1), Box("a"), Box(None), Box((1, 2)), Box(("a", "b")), Sub(1), Sub("a"),
+          Tagged(1, 1), Tagged(1, "a"), Tagged(True, None), Pair((1, 2)), Pair(("a", "b"))]
   return ns, vals
 
 
